@@ -13,7 +13,7 @@ CHECKS = {
         'the returned list is a matching inside the original matrix with exactly min(r,c) pairs whose cost no matching of that size beats - solver_rect, via zero padding of the squared copy; '
         'for square matrices additionally one pair per row in row order - solver_square; reuse of a solver object is state-independent); model tied to the code by exact comparison of the returned '
         'pair lists (incl. tie choices) on exhaustive small scopes and seeded random exact matrices, plus a subset-DP oracle on the implementation.',
-   note=PROOF_NOTE + ' The caller-matrix-unmodified clause is an aliasing fact outside a value-semantics model: it is checked per case by snapshot comparison. '
+   note=PROOF_NOTE + ' The caller-matrix-unmodified clause is proved on a row-heap (object identity) model: pad_matrix allocates new row objects and every write goes through the rows of self.C, so no sequence of solves changes a row that existed before (caller_unmodified, caller_unmodified_history; the reuse-unpadded-rows variant is refuted); the tie compares the final self.C, the freshness of its row objects and the caller matrix read back with the real solver object. '
         'IEEE rounding of non-dyadic float costs is outside the theorem (monitored within 1e-9).',
    technique='Lean 4 proof (invariants + termination measure) of a literal Munkres model; differential correspondence with exact Fractions', design='§6 C06'),
  'C17': dict(
